@@ -21,6 +21,15 @@ SimCatalog(r) ==
     \cup {Atts(<<e1, e2, A(k3, 0, 1, "A")>>) : e1 \in {e \in AttEnts : e.root = "A"}, e2 \in {e \in AttEnts : e.root = "B"}, k3 \in Keys}
     \cup {Prop(P(k, slot, root)) : k \in Keys, slot \in 0 .. 3, root \in {"A", "B"}}
 
+\* catalogue for attack generation: every request votes (0,1) / proposes slot 1 on keys shared with the
+\* others, so that any overlap of two critical sections on a key yields a double signature or a lost update
+ConflictCatalog(r) ==
+    {Att(A(k, 0, 1, root)) : k \in Keys, root \in {"A", "B"}}
+    \cup UNION {{Atts(<<A(k1, 0, 1, root), A(k2, 0, 1, root)>>) : k2 \in Keys \ {k1}, root \in {"A", "B"}} : k1 \in Keys}
+    \cup UNION {UNION {{Atts(<<A(k1, 0, 1, root), A(k2, 0, 1, root), A(k3, 0, 1, root)>>) : k3 \in Keys \ {k1, k2}, root \in {"A", "B"}}
+                        : k2 \in Keys \ {k1}} : k1 \in Keys}
+    \cup {Prop(P(k, 1, root)) : k \in Keys, root \in {"A", "B"}}
+
 SimInit == Init /\ sched = <<>>
 
 Rec(name, r) == sched' = Append(sched, [a |-> name, r |-> r])
